@@ -598,7 +598,7 @@ def excacc(ctx, pid):
             rets = [r for r in walk_shallow(meth.node) if isinstance(r, ast.Return) and r.value is not None]
             if len(rets) != 1:
                 continue
-            v = rets[0].value
+            v = util.ret_deref(meth, rets[0])
             if not (isinstance(v, ast.Subscript) and isinstance(v.value, ast.Attribute) and v.value.attr == "args"
                     and isinstance(v.slice, ast.Constant) and isinstance(v.slice.value, int)):
                 continue
